@@ -1,5 +1,5 @@
 /- L0 facts about the accessors, Display and Default of AverageTrueRange (split from Lemmas/AverageTrueRange.lean so that a change to one method only invalidates the facts about that method) -/
-import TaRs.Lemmas.AverageTrueRange
+import TaRs.Lemmas.Core.AverageTrueRange
 import TaRs.Lemmas.Misc.ExponentialMovingAverage
 import TaRs.Lemmas.Misc.TrueRange
 set_option linter.unusedSectionVars false
